@@ -217,6 +217,42 @@ pub fn gen_program(rng: &mut Rng) -> GenProgram {
         main_body = format!("{at_start}{first}{at_mid}{rest}{at_end}");
     }
 
+    let mut wide_globals = String::new();
+    // a few more globals: any elementary / sized-string / user type, with or without initial value;
+    // user types used here are declared nowhere else (late additions to the type table)
+    if use_config && rng.chance(2, 3) {
+        f.push("wide-globals");
+        for g in 0..1 + rng.below(4) {
+            let ty = rng.below(DECL_TYPES.len() as u64) as usize;
+            let (tname, init) = DECL_TYPES[ty];
+            let user_decl = match tname {
+                "Color" => if use_enum { "" } else { "  Color : (Red, Green, Blue);\n" },
+                "Small" => if use_subrange { "" } else { "  Small : SINT(0..10);\n" },
+                "Speed" => if use_alias { "" } else { "  Speed : UDINT;\n" },
+                "Pt" | "Pts" => if use_struct { "" } else { "  Pt : STRUCT px : LREAL; py : USINT; END_STRUCT;\n" },
+                "Label" => "  Label : STRING[7];\n",
+                "Names" => "  Names : ARRAY[0..2] OF WSTRING[4];\n",
+                "Rec" => "  Rec : STRUCT tag : STRING[3]; when : LDT; flags : LWORD; END_STRUCT;\n",
+                "Grid" => "  Grid : ARRAY[1..2, 0..1] OF TOD;\n",
+                _ => "",
+            };
+            // the generator's own Color / Small / Speed / Pt differ in shape: skip instead of clashing
+            if (tname == "Color" && use_enum) || (tname == "Small" && use_subrange) || (tname == "Speed" && use_alias)
+                || ((tname == "Pt" || tname == "Pts") && use_struct)
+            {
+                continue;
+            }
+            if !user_decl.is_empty() && !types.contains(user_decl) {
+                types.push_str(user_decl);
+            }
+            if tname == "Pts" && !types.contains("  Pts : ") {
+                types.push_str("  Pts : ARRAY[0..1] OF Pt;\n");
+            }
+            let init = if !init.is_empty() && rng.chance(2, 3) { format!(" := {init}") } else { String::new() };
+            wide_globals.push_str(&format!("    wg{g} : {tname}{init};\n"));
+        }
+    }
+
     let mut src = String::new();
     if !types.is_empty() {
         src.push_str("TYPE\n");
@@ -236,6 +272,7 @@ pub fn gen_program(rng: &mut Rng) -> GenProgram {
     if use_config {
         f.push("config");
         globals.push_str("    trigger : BOOL := FALSE;\n");
+        globals.push_str(&wide_globals);
         if rng.chance(1, 2) {
             globals.push_str(&format!("    gcount : DINT := {};\n", rng.range(0, 9)));
         }
@@ -345,6 +382,141 @@ pub fn rollback_program(site: usize, position: usize, host: usize) -> (String, S
     };
     (format!("{name}/{pos}/{host_name}"), source)
 }
+
+/// Declarations: (type text, initial value literal).  Used one at a time so that a type occurs in a
+/// single place of the project (late additions to the type table: var meta, retain init, const pool).
+pub const DECL_TYPES: &[(&str, &str)] = &[
+    ("BOOL", "TRUE"),
+    ("SINT", "-5"),
+    ("INT", "300"),
+    ("DINT", "-70000"),
+    ("LINT", "LINT#5000000000"),
+    ("USINT", "200"),
+    ("UINT", "60000"),
+    ("UDINT", "UDINT#4000000000"),
+    ("ULINT", "ULINT#9000000000"),
+    ("REAL", "1.5"),
+    ("LREAL", "-2.25"),
+    ("BYTE", "16#FF"),
+    ("WORD", "16#FFFF"),
+    ("DWORD", "DWORD#16#FFFFFFFF"),
+    ("LWORD", "LWORD#16#FFFFFFFFFF"),
+    ("TIME", "T#5s"),
+    ("LTIME", "LTIME#5s"),
+    ("DATE", "D#2024-01-02"),
+    ("LDATE", "LDATE#2024-01-02"),
+    ("TOD", "TOD#12:30:00"),
+    ("LTOD", "LTOD#12:30:00"),
+    ("DT", "DT#2024-01-02-12:30:00"),
+    ("LDT", "LDT#2024-01-02-12:30:00"),
+    ("STRING", "'abc'"),
+    ("WSTRING", "\"abc\""),
+    ("STRING[10]", "'abc'"),
+    ("WSTRING[10]", "\"abc\""),
+    ("STRING[1]", "'a'"),
+    ("WSTRING[200]", "\"\""),
+    ("CHAR", "'a'"),
+    ("WCHAR", "\"a\""),
+    // user types declared in the TYPE block of decl_program
+    ("Color", "Color#Green"),
+    ("Small", "3"),
+    ("Speed", "7"),
+    ("Pt", ""),
+    ("Label", "'xy'"),
+    ("Names", ""),
+    ("Pts", ""),
+    ("Rec", ""),
+    ("Grid", ""),
+    ("ARRAY[0..2] OF INT", ""),
+    ("ARRAY[0..1] OF STRING[5]", ""),
+    ("ARRAY[1..2, 0..1] OF BOOL", ""),
+];
+
+/// where the single declaration goes
+pub const DECL_PLACES: &[&str] = &[
+    "global", "global-retain", "global-constant", "local", "local-retain", "fb-var", "fb-input", "function-input",
+    "struct-field-of-global", "struct-field-of-local", "array-of-global",
+];
+
+/// A project whose only use of `DECL_TYPES[ty]` is one declaration at `DECL_PLACES[place]`.
+pub fn decl_program(ty: usize, place: usize, with_init: bool) -> (String, String) {
+    let (tname, init) = DECL_TYPES[ty % DECL_TYPES.len()];
+    let pname = DECL_PLACES[place % DECL_PLACES.len()];
+    let init = if with_init && !init.is_empty() { format!(" := {init}") } else { String::new() };
+    let decl = format!("    v : {tname}{init};\n");
+    // user types are declared only when used, so that nothing else mentions their component types
+    let user = |t: &str| -> &'static str {
+        match t {
+            "Color" => "  Color : (Red, Green, Blue);\n",
+            "Small" => "  Small : SINT(0..10);\n",
+            "Speed" => "  Speed : UDINT;\n",
+            "Pt" => "  Pt : STRUCT px : LREAL; py : USINT; END_STRUCT;\n",
+            "Label" => "  Label : STRING[7];\n",
+            "Names" => "  Names : ARRAY[0..2] OF WSTRING[4];\n",
+            "Pts" => "  Pt : STRUCT px : LREAL; py : USINT; END_STRUCT;\n  Pts : ARRAY[0..1] OF Pt;\n",
+            "Rec" => "  Rec : STRUCT tag : STRING[3]; when : LDT; flags : LWORD; END_STRUCT;\n",
+            "Grid" => "  Grid : ARRAY[1..2, 0..1] OF TOD;\n",
+            _ => "",
+        }
+    };
+    let mut types = String::from(user(tname));
+    let (mut globals, mut locals, mut pous) = (String::new(), String::new(), String::new());
+    let mut body = String::from("n := n + 1;\n");
+    match pname {
+        "global" => globals = format!("VAR_GLOBAL\n{decl}END_VAR\n"),
+        "global-retain" => globals = format!("VAR_GLOBAL RETAIN\n{decl}END_VAR\n"),
+        "global-constant" => globals = format!("VAR_GLOBAL CONSTANT\n{decl}END_VAR\n"),
+        "local" => locals = format!("VAR\n{decl}END_VAR\n"),
+        "local-retain" => locals = format!("VAR RETAIN\n{decl}END_VAR\n"),
+        "fb-var" => {
+            pous = format!("FUNCTION_BLOCK Holder\nVAR\n{decl}    m : INT;\nEND_VAR\nm := m + 1;\nEND_FUNCTION_BLOCK\n\n");
+            locals = "VAR\n    h : Holder;\nEND_VAR\n".into();
+            body.push_str("h();\n");
+        }
+        "fb-input" => {
+            pous = format!("FUNCTION_BLOCK Holder\nVAR_INPUT\n{decl}END_VAR\nVAR m : INT; END_VAR\nm := m + 1;\nEND_FUNCTION_BLOCK\n\n");
+            locals = "VAR\n    h : Holder;\nEND_VAR\n".into();
+            body.push_str("h();\n");
+        }
+        "function-input" => {
+            pous = format!("FUNCTION Take : INT\nVAR_INPUT\n{decl}END_VAR\nTake := 1;\nEND_FUNCTION\n\n");
+        }
+        "struct-field-of-global" => {
+            types.push_str(&format!("  Wrap : STRUCT\n    inner : {tname};\n    pad : BOOL;\n  END_STRUCT;\n"));
+            globals = "VAR_GLOBAL\n    w : Wrap;\nEND_VAR\n".into();
+        }
+        "struct-field-of-local" => {
+            types.push_str(&format!("  Wrap : STRUCT\n    inner : {tname};\n    pad : BOOL;\n  END_STRUCT;\n"));
+            locals = "VAR\n    w : Wrap;\nEND_VAR\n".into();
+        }
+        _ => {
+            types.push_str(&format!("  Many : ARRAY[0..1] OF {tname};\n"));
+            globals = "VAR_GLOBAL\n    mm : Many;\nEND_VAR\n".into();
+        }
+    }
+    let mut src = String::new();
+    if !types.is_empty() {
+        src.push_str(&format!("TYPE\n{types}END_TYPE\n\n"));
+    }
+    src.push_str(&pous);
+    src.push_str(&format!("PROGRAM Main\nVAR\n    n : DINT := 0;\nEND_VAR\n{locals}{body}END_PROGRAM\n\n"));
+    src.push_str(&format!("CONFIGURATION C\n{globals}TASK T (INTERVAL := T#10ms, PRIORITY := 0);\nPROGRAM P1 WITH T : Main;\nEND_CONFIGURATION\n"));
+    (format!("{tname}/{pname}/init={}", with_init as u8), src)
+}
+
+/// Finding C11-string-default-param (fixed in c48da62): the encoder used to return an error for an input
+/// parameter whose default value is a string / character literal.  These combinations are always part
+/// of the declaration block, and the original witness is replayed as the `known-witness` case.
+pub fn decl_hits_string_default(ty: usize, place: usize, with_init: bool) -> bool {
+    let (tname, init) = DECL_TYPES[ty % DECL_TYPES.len()];
+    let pname = DECL_PLACES[place % DECL_PLACES.len()];
+    with_init
+        && !init.is_empty()
+        && matches!(pname, "fb-input" | "function-input")
+        && (tname.contains("STRING") || tname.contains("CHAR") || tname == "Label")
+}
+
+pub const STRING_DEFAULT_WITNESS: &str = "FUNCTION Take : INT\nVAR_INPUT v : STRING := 'abc'; END_VAR\nTake := 1;\nEND_FUNCTION\n\nPROGRAM Main\nVAR n : DINT := 0; END_VAR\nn := n + 1;\nEND_PROGRAM\n";
 
 /// The runtime every mutated or random container is applied to: no struct/array values (so that a
 /// reference path never resolves), one user FB instance inside the program, tasks from a
